@@ -63,6 +63,8 @@ def shards(tier):
     for n in ([6, 9] if q else [6, 9, 16, 33]):
         out.append(('pcm', n))
         out.append(('single', n))
+    for n in ([600] if q else [513, 600, 1025]):
+        out.append(('long', n))       # long records: an implementation may switch to an FFT-based algorithm
     return out
 
 
@@ -118,7 +120,11 @@ def run_shard(desc, R, tier):
                     eval_point({'kind': 'xcorr', 'x': x, 'y': None, 'maxlags': ml, 'norm': norm, 'aslist': False}, R)
     elif kind in ('pcm', 'single'):
         n = desc[1]
-        recs = A.pcm(n) + A.pcm64(n) if kind == 'pcm' else A.single(A.gen_real(n), 2) + A.single(A.gen_cplx(n), 2)
+        if kind == 'pcm':
+            recs = A.pcm(n) + A.pcm64(n)
+        else:
+            base = A.gen_real(n)[:2] + A.gen_cplx(n)[:2]
+            recs = A.single(A.gen_real(n), 2) + A.single(A.gen_cplx(n), 2) + A.strided(A.gen_real(n), 1) + A.strided(A.gen_cplx(n), 1) + A.extreme(base, 4)
         for nx, x in recs:
             for ml in [0, 1, n // 2, n - 1, None]:
                 for norm in NORMS + ['coeff']:
@@ -133,6 +139,18 @@ def run_shard(desc, R, tier):
                         for norm in NORMS:
                             eval_point({'kind': 'cross', 'x': x, 'y': y[:n - 2], 'maxlags': ml, 'norm': norm, 'name': nx + '/' + ny}, R)
                             eval_point({'kind': 'xcorr', 'x': x, 'y': y, 'maxlags': ml, 'norm': norm, 'aslist': False, 'name': nx + '/' + ny}, R)
+    elif kind == 'long':
+        n = desc[1]
+        recs = A.gen_real(n)[:1] + A.gen_cplx(n)[:2]
+        for nx, x in recs:
+            for ml in [0, 3, None]:
+                for norm in ['biased', 'unbiased']:
+                    eval_point({'kind': 'auto', 'x': x, 'maxlags': ml, 'norm': norm, 'name': nx}, R)
+                    eval_point({'kind': 'xcorr', 'x': x, 'y': None, 'maxlags': ml, 'norm': norm, 'aslist': False, 'name': nx}, R)
+            y = recs[-1][1][::-1] * (0.5 - 0.25j)
+            for ml in [2, None]:
+                eval_point({'kind': 'cross', 'x': x, 'y': y, 'maxlags': ml, 'norm': 'biased', 'name': nx + '/rev'}, R)
+                eval_point({'kind': 'xcorr', 'x': x, 'y': y, 'maxlags': ml, 'norm': 'unbiased', 'aslist': False, 'name': nx + '/rev'}, R)
     elif kind == 'corrmtx':
         _, name, n = desc
         alpha, dt = _alpha(name)
@@ -165,7 +183,7 @@ def eval_point(pt, R):
     import spectrum
     kind = pt['kind']
     if kind in ('cross', 'auto'):
-        x = np.asarray(pt['x'])
+        x = A.layout(pt, pt['x'])
         y = np.asarray(pt['y']) if kind == 'cross' else None
         norm = pt['norm']
         N = max(len(x), len(y)) if y is not None else len(x)
@@ -210,7 +228,7 @@ def eval_point(pt, R):
             R.check(ok, 'auto_psd', feats, pt, [r0, float(ev.min())], [m2, 0.0],
                     'biased autocorrelation: r0 != mean|x|^2, |r[k]| > r0 or Toeplitz matrix not positive semi-definite')
     elif kind == 'xcorr':
-        x = np.asarray(pt['x'])
+        x = A.layout(pt, pt['x'])
         y = None if pt['y'] is None else np.asarray(pt['y'])
         yy = x if y is None else y
         norm = pt['norm']
@@ -250,7 +268,7 @@ def eval_point(pt, R):
         R.check(lags.shape == reflags.shape and np.array_equal(lags, reflags), 'xcorr_lags', feats, pt, lags, reflags,
                 'lags vector is not -maxlags..maxlags')
     elif kind == 'corrmtx':
-        x = np.asarray(pt['x'])
+        x = A.layout(pt, pt['x'])
         m = int(pt['m'])
         meth = pt['method']
         feats = {'method': meth, 'dtype': _dt(x) + ('-single' if A.is_single(x) else '')}
